@@ -1368,6 +1368,13 @@ func (p *process) LinkNode(target gen.Atom) error {
 	}
 
 	p.node.targetManager.AddLink(p.pid, target)
+	// the connection may have gone between the lookup and the insert: its RouteNodeDown
+	// either took the new relation (the exit message has been sent) or missed it
+	if _, err := p.node.network.Connection(target); err != nil {
+		if p.node.targetManager.RemoveLink(p.pid, target) == nil {
+			return gen.ErrNoConnection
+		}
+	}
 
 	return nil
 }
@@ -1563,6 +1570,12 @@ func (p *process) MonitorNode(target gen.Atom) error {
 		return err
 	}
 	p.node.targetManager.AddMonitor(p.pid, target)
+	// see LinkNode
+	if _, err := p.node.network.Connection(target); err != nil {
+		if p.node.targetManager.RemoveMonitor(p.pid, target) == nil {
+			return gen.ErrNoConnection
+		}
+	}
 	return nil
 }
 
